@@ -6,7 +6,7 @@ from .common import bump
 ID = "C07"
 AREA = "c07"
 LEAN_PROPS = "Litep2pVerif.Props.C07"
-THEOREMS = ["exit_reports_closed_once", "tcploop_exit_reports_closed_once", "protocols_before_manager", "live_protocols_all_told",
+THEOREMS = ["exit_reports_closed_once", "close_report_waits_for_busy_protocol", "protocols_before_manager", "live_protocols_all_told",
             "app_closed_iff_last", "established_survives_dead_protocol", "loop_usable_after_protocol_exit",
             "accept_established_then_closed", "redial_after_close"]
 MANIFEST = {
